@@ -42,6 +42,8 @@ GateProblems(r) ==
        \cup (IF KeywordsKnown(r.inp, r.real) THEN {} ELSE {"keyword lexeme does not spell a known directive"})
        \cup (IF LexemesWFLoose(r.inp, r.real) /\ ~AnnotationsDelimited(r.inp, r.real)
              THEN {"annotation lexeme is not what its delimiters enclose"} ELSE {})
+       \cup (IF LexemesWFLoose(r.inp, r.real) /\ ~DescriptionsDelimited(r.inp, r.real)
+             THEN {"description lexeme is not what its parentheses enclose"} ELSE {})
        \cup (IF LexemesWFLoose(r.inp, r.real) /\ ~OnlyTriviaSkipped(r.inp, r.real, Len(r.inp))
              THEN {"a byte outside all lexemes is not trivia"} ELSE {})
        \cup (IF \E i \in 1..Len(r.real) : r.real[i][1] \in {3, 8} /\ LibLen(r, r.real[i][2]) # r.real[i][3] - r.real[i][2] + 1
